@@ -3,10 +3,14 @@
 cd /verif
 jobs=${1:-4}
 out=$(mktemp -d)
+# the checks run from a snapshot of /verif, so that edits made while the seeds run cannot break their builds
+SNAP=$(mktemp -d /tmp/verif-snap.XXXXXX)
+rsync -a --exclude bin --exclude replays --exclude scratch --exclude .git /verif/ $SNAP/
+export SNAP
 one() {
   d=$1; n=$(basename $d)
   checks=$(python3 -c "import json;print(' '.join(json.load(open('$d/meta.json'))['checks_expected_to_catch']))")
-  res=$(SKIP_TESTS=1 SHOW=2 tools/try_mutant.sh $d/patch.diff $checks 2>&1)
+  res=$(SKIP_TESTS=1 SHOW=2 $SNAP/tools/try_mutant.sh /verif/$d/patch.diff $checks 2>&1)
   line=$(echo "$res" | grep -E '^check |PATCH-DOES-NOT-APPLY' | tr '\n' ';')
   sig=$(echo "$res" | grep -m1 'signature=' | sed 's/^ *//' | cut -c1-200)
   printf '%s\t%s\t%s\n' "$n" "$line" "$sig" > $2/$n.tsv
@@ -28,4 +32,4 @@ for l in open(sys.argv[1]):
     old[n] = {"result": line, "first_violation": sig}
 json.dump(old, open(p, "w"), indent=1, sort_keys=True)
 PY
-rm -rf $out
+rm -rf $out $SNAP
